@@ -125,4 +125,23 @@ theorem gen_untaintLoop_count_eq (o : Oracle) (cs : List Node) :
         rw [hc, Int.add_zero]
         omega
 
+/-- **C07, model and source together (count).** Outside dry mode the model's `untaintLoop` hands back exactly
+    `min(need, number of candidates that carry the taint and whose removal succeeds)` — obtained through the translated loop
+    (`gen_untaintLoop_count_eq` + `C07_source_untaint_exact`), for every oracle, candidate list and amount. -/
+theorem C07_untaintLoop_count_exact (o : Oracle) (cs : List Node) (k need : Nat) (tr : List String) :
+    ((untaintLoop o false k cs need tr).val.count : Int) =
+      min (need : Int) ((untaintOutcomes o k cs).countP (untaintOk false) : Nat) := by
+  have h1 := gen_untaintLoop_count_eq o cs k need 0 tr
+  have h2 := C07_source_untaint_exact (0 + need) false (untaintOutcomes o k cs) 0 (by omega)
+  rw [h1, h2]; omega
+
+/-- **C03 / C06, model and source together (count).** Outside dry mode the model's `taintLoop` taints exactly
+    `min(need, number of candidates whose write succeeds)`. -/
+theorem C06_taintLoop_count_exact (o : Oracle) (nowSec : Int) (effect : String) (cs : List Node) (k need : Nat) (tr : List String) :
+    ((taintLoop o false nowSec effect k cs need tr).val.count : Int) =
+      min (need : Int) ((taintOutcomes o nowSec effect k cs).countP (fun e => false || !e) : Nat) := by
+  have h1 := gen_taintLoop_count_eq o nowSec effect cs k need 0 tr
+  have h2 := C06_source_taint_exact_failures (0 + need) false (taintOutcomes o nowSec effect k cs) 0 (by omega)
+  rw [h1, h2]; omega
+
 end Esc.P
